@@ -155,6 +155,9 @@ def store_attr(ex, st, obj, attr, val, cx, node, k):
 
 
 def store_index(ex, st, base, idx, val, cx, node, k):
+    d_ = ex.as_dict_subclass(st, base)
+    if d_ is not None:
+        base = d_
     t = base.ty
     if t.kind == 'opt' and T.is_reflike(t.args[0]):
         base = SV(t.args[0], base.z)
@@ -720,6 +723,8 @@ def for_loop(ex, st, s, cx, o, spec):
     if isinstance(it, ast.Call) and isinstance(it.func, ast.Name) and it.func.id == 'enumerate' and len(it.args) == 1:
         enum = True
         src = it.args[0]
+    if isinstance(it, ast.Call) and isinstance(it.func, ast.Attribute) and it.func.attr == 'items' and not it.args:
+        return cfg_items_loop(ex, st, s, cx, o, spec, it.func.value)
 
     def g(s2, coll):
         t = coll.ty
@@ -890,3 +895,44 @@ def apply_block(ex, st, name, spec, bstmts, cx):
         post = post.assume(eval_clause(ex, post, cl, scx))
     post = post.copy(snaps=st.snaps)
     return outs + [('normal', post, None)]
+
+
+def cfg_items_loop(ex, st, s, cx, o, spec, src):
+    """for key, value in <configuration dict>.items(): the entries in file order (keys pairwise distinct)"""
+    cname = f'$i{o}'
+    tgt = s.target
+    if not (isinstance(tgt, ast.Tuple) and len(tgt.elts) == 2 and all(isinstance(e_, ast.Name) for e_ in tgt.elts)):
+        raise VCError('items() loop target outside subset')
+
+    def g(s2, coll):
+        t = coll.ty
+        if t.kind == 'opt' and t.args[0].kind == 'cfg':
+            coll = SV(T.CFG, coll.z)
+            t = coll.ty
+        if t.kind != 'cfg':
+            raise VCError(f'.items() of {t!r} outside subset')
+        n_ = ex.uf('cfg_nitems', z3.IntSort(), z3.IntSort())(coll.z)
+        key_at = ex.uf('cfg_key_at', z3.IntSort(), z3.IntSort(), z3.StringSort())
+        val_at = ex.uf('cfg_val_at', z3.IntSort(), z3.IntSort(), z3.IntSort())
+        has = ex.uf('cfg_has', z3.IntSort(), z3.StringSort(), z3.BoolSort())
+        get = ex.uf('cfg_get', z3.IntSort(), z3.StringSort(), z3.IntSort())
+        i_, j_ = z3.Int('i!it'), z3.Int('j!it')
+        s2 = s2.assume(n_ >= 0,
+                       z3.ForAll([i_], z3.Implies(z3.And(i_ >= 0, i_ < n_),
+                                                  z3.And(has(coll.z, key_at(coll.z, i_)),
+                                                         get(coll.z, key_at(coll.z, i_)) == val_at(coll.z, i_),
+                                                         val_at(coll.z, i_) > 0)),
+                                 patterns=[key_at(coll.z, i_)]),
+                       z3.ForAll([i_, j_], z3.Implies(z3.And(i_ >= 0, i_ < j_, j_ < n_),
+                                                      key_at(coll.z, i_) != key_at(coll.z, j_)),
+                                 patterns=[z3.MultiPattern(key_at(coll.z, i_), key_at(coll.z, j_))]))
+        s2 = s2.setvar(cname, SV(INT, I(0))).setvar(f'$it{o}', coll)
+
+        def guard_fn(s3, k):
+            return k(s3, s3.vars[cname].z < n_)
+
+        def bind_fn(s3):
+            i = s3.vars[cname].z
+            return s3.setvar(tgt.elts[0].id, SV(STR, key_at(coll.z, i))).setvar(tgt.elts[1].id, SV(T.CFG, val_at(coll.z, i)))
+        return loop_core(ex, s2, s, cx, o, spec, guard_fn, bind_fn, cname)
+    return ex.ev(st, src, cx, g)
